@@ -1,4 +1,5 @@
 //! dltverif — property-based testing / fuzzing machinery for the dlt-core properties C01..C19.
+pub mod evalserver;
 pub mod model;
 pub mod refcodec;
 pub mod oracle;
